@@ -97,6 +97,30 @@ func decList(s string) []string {
 	return strings.Split(s, ".")[1:]
 }
 
+// vFuture prints the target of the pending delayed switch whatever its representation is (the id, or
+// a pointer to / a copy of the endpoint object): the digest must survive such refactorings
+func vFuture(me *multiEndpoint) string {
+	v := reflect.ValueOf(me).Elem().FieldByName("future")
+	if !v.IsValid() {
+		return "?"
+	}
+	for v.Kind() == reflect.Pointer || v.Kind() == reflect.Interface {
+		if v.IsNil() {
+			return ""
+		}
+		v = v.Elem()
+	}
+	switch v.Kind() {
+	case reflect.String:
+		return v.String()
+	case reflect.Struct:
+		if f := v.FieldByName("id"); f.IsValid() && f.Kind() == reflect.String {
+			return f.String()
+		}
+	}
+	return "?"
+}
+
 func (h *vHarness) digest() string {
 	if h.me == nil {
 		return "none"
@@ -132,7 +156,7 @@ func (h *vHarness) digest() string {
 		}
 		ts = append(ts, s)
 	}
-	return fmt.Sprintf("cur=%s fut=%s now=%d eps=%s timers=%s", h.me.Current(), me.future, h.now,
+	return fmt.Sprintf("cur=%s fut=%s now=%d eps=%s timers=%s", h.me.Current(), vFuture(me), h.now,
 		strings.Join(eps, ","), strings.Join(ts, ","))
 }
 
